@@ -1,5 +1,5 @@
 (* C06 — every signature is over the consensus-spec signing root for that duty and key.
-   Property theorems only; the proofs are in Proofs/C06.v and Proofs/C06_Spec.v.
+   Property theorems only; the proofs are in Proofs/C06.v, Proofs/C06_Spec.v and Proofs/C06_Flaky.v.
 
    Reading guide.  [H] is the two-to-one hash of SSZ merkleisation (any function; SHA-256 in the
    correspondence check), [sign k m] the BLS signature of the 32-byte message m under the key named
@@ -15,7 +15,7 @@
    [expected a r] = [sign (a_key a) r], or [zero_sig] when account a cannot sign.
    The specification side ([spec_signing_root], [get_domain], [compute_domain], [htr_*]) is Lib/Ssz.v
    and Section Spec of Model/C06_Signer.v, written from the consensus and builder specifications. *)
-From Verif Require Import Lib.Base Lib.Ssz Model.C06_Signer Proofs.C06 Proofs.C06_Spec.
+From Verif Require Import Lib.Base Lib.Ssz Model.C06_Signer Proofs.C06 Proofs.C06_Spec Proofs.C06_Flaky.
 
 (* ------------------------------------------------------------------------------------------ *)
 (* The property, for every request of every kind, every chain, every batch.                     *)
@@ -404,6 +404,78 @@ Qed.
 Print Assumptions C06_session_outcomes.
 
 (* ------------------------------------------------------------------------------------------ *)
+(* Partial failures of the signer behind the accounts.                                          *)
+(* [honest_flaky H sig sign bf be sf]: the accounts sign what their interfaces document, but     *)
+(* the (remote, threshold) signer fails here and there, call by call: a multi-signature call has *)
+(* no signature (nil entry) for a member [bf a] that could sign alone, a multi-signature call    *)
+(* made on account [be a] fails as a whole, a single-signature call fails for [sf a].  The three *)
+(* predicates are arbitrary and may differ from one request of a session to the next.            *)
+
+(* The property under partial failures, for every request of every kind, every chain, every
+   batch and every pattern of failures: whenever signatures are returned there is exactly one per
+   (account, message) of the request, in request order, and the i-th is EITHER the zero signature
+   ("no signature") OR the i-th account's signature over the specification's signing root of the
+   i-th message.  No failure of the signer, and nothing the service does about one, puts a
+   signature over another message (another committee index, subcommittee, contribution, epoch's
+   domain) or of another account at position i. *)
+Theorem C06_partial_failure_spec :
+  forall (H : N -> N -> N) (sig : Type) (zero_sig : sig) (sign : N -> N -> sig) (bf be sf : account -> bool)
+         (c : chain) (q : request) (sigs : list sig),
+    req_wf c q ->
+    run H sig zero_sig (spec_provider H c) (honest_flaky H sig sign bf be sf) (spec_service c) q = Ok sigs ->
+    length sigs = length (request_items q) /\
+    forall i a m s, nth_error (request_items q) i = Some (a, m) -> nth_error sigs i = Some s ->
+      s = zero_sig \/ s = sign (a_key a) (spec_signing_root H c m).
+Proof. exact run_flaky_spec. Qed.
+Print Assumptions C06_partial_failure_spec.
+
+(* The reason, for ANY two behaviours of the accounts' signers, any provider and any service
+   values: if [E'] fails more often than [E] ([env_le]: every single-signature call that E' answers
+   E answers with the same signature; every multi-signature call that E' answers E answers with
+   the same entries except where E' has none), every request answered with E' is answered with E,
+   and the two results differ only by zero signatures in the former, position by position. *)
+Theorem C06_failing_more_only_adds_zero_signatures :
+  forall (H : N -> N -> N) (sig : Type) (zero_sig : sig) (E E' : env sig),
+    env_le sig E E' ->
+    forall (P : provider) (Sv : service) (q : request) (sigs' : list sig),
+      run H sig zero_sig P E' Sv q = Ok sigs' ->
+      exists sigs, run H sig zero_sig P E Sv q = Ok sigs /\
+                   Forall2 (fun s s' => s' = s \/ s' = zero_sig) sigs sigs'.
+Proof. exact run_le. Qed.
+Print Assumptions C06_failing_more_only_adds_zero_signatures.
+
+(* Sessions with failures that come and go: [run_session_env] handles every request with the
+   node AND the accounts' signers as they answer during that request.  The k-th outcome is the
+   outcome of the k-th request made alone to a fresh service with the signers as they were during
+   it: a failure during one request leaves nothing behind for the next. *)
+Theorem C06_session_env_request_alone :
+  forall (H : N -> N -> N) (sig : Type) (zero_sig : sig) (Sv : service)
+         (qs : list (provider * env sig * request)) (k : nat) (P : provider) (E : env sig) (q : request),
+    nth_error qs k = Some (P, E, q) ->
+    nth_error (run_session_env H sig zero_sig Sv qs) k = Some (run H sig zero_sig P E Sv q).
+Proof. exact run_session_env_nth. Qed.
+Print Assumptions C06_session_env_request_alone.
+
+(* ... and every answered request of such a session -- the other requests arbitrary, made while
+   the node and the signers behave in any way -- carries, position by position, zero signatures or
+   the signatures over the specification's signing roots of ITS messages. *)
+Theorem C06_session_partial_failure_spec :
+  forall (H : N -> N -> N) (sig : Type) (zero_sig : sig) (sign : N -> N -> sig) (bf be sf : account -> bool) (c : chain)
+         (qs : list (provider * env sig * request)) (k : nat) (q : request) (sigs : list sig),
+    nth_error qs k = Some (spec_provider H c, honest_flaky H sig sign bf be sf, q) ->
+    req_wf c q ->
+    nth_error (run_session_env H sig zero_sig (spec_service c) qs) k = Some (Ok sigs) ->
+    length sigs = length (request_items q) /\
+    forall i a m s, nth_error (request_items q) i = Some (a, m) -> nth_error sigs i = Some s ->
+      s = zero_sig \/ s = sign (a_key a) (spec_signing_root H c m).
+Proof.
+  intros H sig zero_sig sign bf be sf c qs k q sigs Hk Hwf Hout.
+  rewrite (run_session_env_nth H sig zero_sig (spec_service c) qs k _ _ q Hk) in Hout.
+  injection Hout as Hrun. exact (run_flaky_spec H sig zero_sig sign bf be sf c q sigs Hwf Hrun).
+Qed.
+Print Assumptions C06_session_partial_failure_spec.
+
+(* ------------------------------------------------------------------------------------------ *)
 (* Non-vacuity: a concrete chain with a fork, a toy hash, and requests that succeed.            *)
 
 Definition toy_H (a b : N) : N := (a * 31 + b * 17 + 7) mod 2 ^ 256.
@@ -470,4 +542,21 @@ Example C06_session_example :
      Err;
      Ok [(1, spec_signing_root toy_H toy_chain (MSlotSelection 79))]]
   /\ version_at toy_chain (88 / 8) = 3 /\ version_at toy_chain (87 / 8) = 2 /\ version_at toy_chain (79 / 8) = 1.
+Proof. vm_compute. repeat split; reflexivity. Qed.
+
+(* partial failure: the batch call has no signature for the distributed account 4 (second of the
+   distributed sub-batch, fourth of the request): its position carries the zero signature, every
+   other position the signature of ITS account over ITS committee index; asked again when the
+   failure has gone, the same request gets all five *)
+Example C06_partial_failure_example :
+  let accs := [dirk_acc 1; dirk_dist_acc 2; dirk_acc 3; dirk_dist_acc 4; dirk_dist_acc 5] in
+  let q := ReqAttestations accs 87 [7; 8; 9; 10; 11] 5 9 6 10 7 in
+  let P := spec_provider toy_H toy_chain in
+  let no := fun _ : account => false in
+  let flaky := honest_flaky toy_H (N * N) toy_sign (fun a => a_key a =? 4) no no in
+  let root i := spec_signing_root toy_H toy_chain (MAttestation (AttData 87 i 5 9 6 10 7)) in
+  req_wf toy_chain q /\
+  run_session_env toy_H (N * N) (0, 0) (spec_service toy_chain) [(P, flaky, q); (P, honest toy_H (N * N) toy_sign, q)]
+  = [Ok [(1, root 7); (2, root 8); (3, root 9); (0, 0); (5, root 11)];
+     Ok [(1, root 7); (2, root 8); (3, root 9); (4, root 10); (5, root 11)]].
 Proof. vm_compute. repeat split; reflexivity. Qed.
